@@ -60,6 +60,8 @@ def rule_block_gate(ctx: Ctx, rep: Report) -> None:
     rep.ob(rule, "witness:commitment_hash", "_HF(witness_root + witness_stack[0])" in txt, wc.where(), "commitment = hash(witness root || nonce)")
     rep.ob(rule, "commitment_prefix", ctx.const(BL, "_COMMITMENT_PREFIX") == bytes.fromhex("6a24aa21a9ed"), "btclib/block/block.py:1", "OP_RETURN 0x24 0xaa21a9ed")
 
+BF = "btclib.block.block_filter"
+
 
 def _anc(n: ast.AST):
     n = parent(n)
@@ -205,7 +207,68 @@ def rule_filter_cmpct(ctx: Ctx, rep: Report) -> None:
     rep.ob(rule, "bip152:empty_refused", any(c.subject == "count" and c.op == "falsy" for c in cr), rc.where(), "a compact block of no transactions is refused")
 
 
+def rule_filter_match(ctx: Ctx, rep: Report) -> None:
+    """C17.filter_match: matching a sorted list of targets against the filter's
+    sorted values is a merge: for each value the target cursor is advanced
+    *while* the target is below it (several targets may lie below one value).
+    An `if` advances it once, and a target that sits past two smaller ones is
+    never compared -- a false negative, which a Golomb-coded set must not give."""
+    rule = "C17.filter_match"
+    fi = ctx.func(f"{BF}.BasicBlockFilter.match_any")
+    m: dict[str, str] = {}
+    loops = [n for n in own_nodes(fi.node) if isinstance(n, ast.For) and isinstance(n.iter, ast.Call) and call_name(n.iter) == "_decode" and isinstance(n.target, ast.Name)]
+    if not loops:
+        rep.unknown(rule, "match_any", fi.where(), "no loop over self._decode(): shape not recognised")
+        return
+    val = loops[0].target.id
+    adv = [n for n in ast.walk(loops[0]) if isinstance(n, (ast.While, ast.If)) and PT.match(PT.compile_(f"$t[$i] < {val}"), n.test, m)
+           and any(isinstance(x, ast.AugAssign) and isinstance(x.target, ast.Name) and x.target.id == m.get("i") for st in n.body for x in ast.walk(st))]
+    if not adv:
+        rep.unknown(rule, "match_any:advance", fi.where(loops[0]), "the cursor advance is not written as `targets[index] < value`: shape not recognised")
+        return
+    for a in adv:
+        rep.ob(rule, "match_any:advance_is_a_loop", isinstance(a, ast.While), fi.where(a), "the cursor skips every target below the value" if isinstance(a, ast.While) else
+               "the cursor advances at most once per value: a target behind two smaller ones is skipped past and reported absent")
+    eq = [n for n in ast.walk(loops[0]) if isinstance(n, ast.If) and PT.match(PT.compile_(f"$t[$i] == {val}"), n.test, dict(m))]
+    rep.ob(rule, "match_any:equality", bool(eq), fi.where(loops[0]), "a target equal to a decoded value is a match")
+
+
+def rule_same_attribute(ctx: Ctx, rep: Report) -> None:
+    """C17.same_attribute: what a table remembers about an object and what it is
+    later compared with are the same attribute of it: `seen[k] = tx.hash` ...
+    `seen[k] != tx.id` compares a wtxid with a txid, which differ for every
+    segwit transaction -- the same transaction met twice is then a collision."""
+    rule = "C17.same_attribute"
+    n = 0
+    for modname in ("btclib.p2p.compact_blocks", "btclib.block.block_filter", "btclib.block.block", "btclib.block.merkle_proof"):
+        mi = ctx.prog.modules.get(modname)
+        if mi is None:
+            continue
+        for fi in sorted(mi.functions.values(), key=lambda f: f.qualname):
+            stores: dict[str, set[str]] = {}
+            for a in own_nodes(fi.node):
+                if isinstance(a, ast.Assign) and len(a.targets) == 1 and isinstance(a.targets[0], ast.Subscript) and isinstance(a.targets[0].value, ast.Name) \
+                        and isinstance(a.value, ast.Attribute) and isinstance(a.value.value, ast.Name):
+                    stores.setdefault(a.targets[0].value.id, set()).add(a.value.attr)
+            if not stores:
+                continue
+            for c in own_nodes(fi.node):
+                if not (isinstance(c, ast.Compare) and len(c.ops) == 1 and isinstance(c.ops[0], (ast.Eq, ast.NotEq))):
+                    continue
+                sides = [c.left, c.comparators[0]]
+                tab = [x for x in sides if isinstance(x, ast.Subscript) and isinstance(x.value, ast.Name) and x.value.id in stores]
+                att = [x for x in sides if isinstance(x, ast.Attribute) and isinstance(x.value, ast.Name)]
+                if len(tab) == 1 and len(att) == 1:
+                    n += 1
+                    ok = att[0].attr in stores[tab[0].value.id]
+                    rep.ob(rule, f"{fi.qualname}:{norm(c)}", ok, fi.where(c), f"compared with the attribute that was stored ({sorted(stores[tab[0].value.id])})" if ok else
+                           f"`{tab[0].value.id}` remembers .{'/.'.join(sorted(stores[tab[0].value.id]))} and is compared with .{att[0].attr}: two different identifiers of one object")
+    rep.floor(rule, 1)
+
+
 RULES = [
+    ("C17.filter_match", rule_filter_match),
+    ("C17.same_attribute", rule_same_attribute),
     ("C17.block_gate", rule_block_gate),
     ("C17.merkle", rule_merkle),
     ("C17.pow", rule_pow),
@@ -213,6 +276,11 @@ RULES = [
 ]
 
 CONTROLS = [
+    {"rule": "C17.filter_match", "name": "the target cursor advances once per value", "module": BF,
+     "edit": lambda ctx: M.sub_expr(ctx, f"{BF}.BasicBlockFilter.match_any", lambda n: isinstance(n, ast.While) and "targets[index] < value" in norm(n.test),
+                                    lambda n: norm(n).replace("while ", "if ", 1) if False else "if targets[index] < value:\n                index += 1\n                if index == len(targets):\n                    return False")},
+    {"rule": "C17.same_attribute", "name": "pool collision compares a wtxid with a txid", "module": "btclib.p2p.compact_blocks",
+     "edit": lambda ctx: M.sub_expr(ctx, "btclib.p2p.compact_blocks.reconstruct", M.is_text("wtxid_of[short_id] != tx.hash"), "wtxid_of[short_id] != tx.id")},
     {"rule": "C17.block_gate", "name": "witness commitment no longer checked", "module": BL,
      "edit": lambda ctx: M.drop_call_stmt(ctx, f"{BL}.Block.assert_valid", "assert_valid_witness_commitment")},
     {"rule": "C17.block_gate", "name": "mutated tree accepted", "module": BL,
